@@ -17,7 +17,7 @@ VARIABLE cell
 OffLens(k, h) == {0, 1, Budget(k, h) - 1, Budget(k, h), Budget(k, h) + 1, 9216}
 QuoteCells == UNION {{[kind |-> k, hdr |-> h, off |-> o] : o \in OffLens(k, h)} : k \in ErrKinds, h \in HdrLens}
 
-Haves == {0, 3, 4, 7, 8, 12, 19, 20, 23, 24, 27, 28, 40}
+Haves == {0, 3, 4, 7, 8, 9, 12, 19, 20, 23, 24, 27, 28, 40, 200, 1300}
 \* (trunc, ck): a truncated datagram never verifies
 TC == {<<FALSE, TRUE>>, <<FALSE, FALSE>>, <<TRUE, FALSE>>}
 ReplyCells == {[t |-> t, have |-> n, trunc |-> tc[1], ck |-> tc[2], rev |-> r, addr |-> a] :
@@ -26,9 +26,11 @@ Desc(c) == [t |-> c.t, complete |-> (~c.trunc /\ c.have >= Fixed(c.t)), ck |-> c
             parsed |-> c.have >= ParseFixed(c.t), rev |-> c.rev, addr |-> c.addr]
 
 \* offending packets at a router: non-SCMP, or SCMP with `have` payload bytes of type t
-RouterCells == {[scmp |-> FALSE, t |-> 0, have |-> 0]} \cup
-               {[scmp |-> TRUE, t |-> t, have |-> n] : t \in 0..255, n \in {0, 3, 4, 7, 8, 28}}
+RouterCells == {[scmp |-> FALSE, t |-> 0, have |-> 0, ck |-> TRUE]} \cup
+               {[scmp |-> TRUE, t |-> t, have |-> n, ck |-> k] : t \in 0..255, n \in {0, 3, 4, 7, 8, 24, 28}, k \in BOOLEAN}
 ODesc(c) == [scmp |-> c.scmp, t |-> c.t, has4 |-> c.have >= 4, parsed |-> c.have >= ParseFixed(c.t)]
+\* the same packet as a message descriptor for the router's own echo service
+RDesc(c) == [t |-> c.t, complete |-> c.have >= Fixed(c.t), ck |-> (c.ck /\ c.have >= 4), parsed |-> c.have >= ParseFixed(c.t), rev |-> TRUE, addr |-> TRUE]
 
 Cells == IF TABLE = "quote" THEN QuoteCells ELSE IF TABLE = "reply" THEN ReplyCells ELSE RouterCells
 
@@ -54,6 +56,8 @@ AtMostOneReply == TABLE = "reply" => EchoHandler(Desc(cell)) <= 1
 
 \* (b') P on the simulated router
 RouterNeverAnswersError == TABLE = "router" => (PRouterMustNotAnswer(ODesc(cell)) => RouterAnswers(ODesc(cell)) = 0)
+RouterEchoAnswered == (TABLE = "router" /\ cell.scmp) => (Class(RDesc(cell)) = "echo_req" => RouterEcho(RDesc(cell)) = 1)
+RouterEchoNoReplyToErrorOrMalformed == (TABLE = "router" /\ cell.scmp) => (PMustNotAnswer(RDesc(cell)) => RouterEcho(RDesc(cell)) = 0)
 
 (* ------------------------------ generation --------------------------------- *)
 Out == IF TABLE = "quote" THEN
@@ -68,7 +72,10 @@ Out == IF TABLE = "quote" THEN
           must_answer |-> PMustAnswerEcho(Desc(cell)), must_not_answer |-> PMustNotAnswer(Desc(cell)),
           must_notify |-> PMustNotify(Desc(cell))]
        ELSE
-         [scmp |-> cell.scmp, t |-> cell.t, have |-> cell.have,
-          answers |-> RouterAnswers(ODesc(cell)), must_not_answer |-> PRouterMustNotAnswer(ODesc(cell))]
+         [scmp |-> cell.scmp, t |-> cell.t, have |-> cell.have, ck |-> cell.ck,
+          answers |-> RouterAnswers(ODesc(cell)), must_not_answer |-> PRouterMustNotAnswer(ODesc(cell)),
+          echo_answers |-> IF cell.scmp THEN RouterEcho(RDesc(cell)) ELSE 0,
+          echo_must_answer |-> (cell.scmp /\ Class(RDesc(cell)) = "echo_req"),
+          echo_must_not_answer |-> (cell.scmp /\ PMustNotAnswer(RDesc(cell)))]
 Emit == GEN => PrintT(<<"CELL", ToJson(Out)>>)
 =============================================================================
